@@ -112,6 +112,11 @@ def match_known(prop: str, ob: Ob, known: dict) -> Optional[dict]:
             continue
         # `stmt_re`: the failing call site with its local variable names abstracted (a renamed loop variable is still the
         # same finding; another call shape, function or callee is not)
+        if "func_re" in k:
+            import re
+
+            if not re.fullmatch(k["func_re"], ob.func):
+                continue
         if "stmt_re" in k:
             import re
 
